@@ -290,7 +290,15 @@ func (ex *Exec) blockWrites(blocks map[*ssa.BasicBlock]bool, skipFresh bool) (co
 					unknown = append(unknown, shortKey(key)+" (modifies *)")
 				case con != nil:
 					// modifies entries: component-level over-approximation
-					if ws, ok := ex.modComps(con); ok {
+					var csig *types.Signature
+					var recvT types.Type
+					if c.IsInvoke() {
+						csig, _ = c.Method.Type().(*types.Signature)
+						recvT = c.Value.Type()
+					} else {
+						csig = c.Signature()
+					}
+					if ws, ok := ex.modCompsSig(con, csig, recvT); ok {
 						for k := range ws {
 							comps[k] = true
 						}
@@ -365,6 +373,12 @@ func (ex *Exec) typeComps(t types.Type, out map[string]bool) {
 
 // modComps: component-level write set of a contract's modifies clause (evaluated syntactically on types).
 func (ex *Exec) modComps(con *Contract) (map[string]bool, bool) {
+	return ex.modCompsSig(con, nil, nil)
+}
+
+// modCompsSig: for interface-method / external contracts the parameter names and types come from the
+// call's signature (recv = the interface value).
+func (ex *Exec) modCompsSig(con *Contract, sig *types.Signature, recvT types.Type) (map[string]bool, bool) {
 	out := map[string]bool{}
 	if len(con.Mod) == 0 {
 		return out, !con.ModAll
@@ -373,6 +387,24 @@ func (ex *Exec) modComps(con *Contract) (map[string]bool, bool) {
 	env, err := ex.contractEnvTypes(con, fn)
 	if err != nil {
 		return nil, false
+	}
+	if fn == nil && sig != nil {
+		names := sigParamNames(sig, nil, recvT != nil)
+		var ts []types.Type
+		if recvT != nil {
+			ts = append(ts, recvT)
+		} else if sig.Recv() != nil {
+			ts = append(ts, sig.Recv().Type())
+		}
+		for i := 0; i < sig.Params().Len(); i++ {
+			ts = append(ts, sig.Params().At(i).Type())
+		}
+		for i, n := range names {
+			if i < len(ts) {
+				env.vars[n] = Val{"0", GType{T: ts[i]}}
+				env.vars[fmt.Sprintf("arg%d", i)] = Val{"0", GType{T: ts[i]}}
+			}
+		}
 	}
 	ok := true
 	func() {
